@@ -31,6 +31,26 @@ DONE = {
               "ExitScoping, ProcLiteralDeferred, StopIsSuccess are checked on the specification; every behaviour is replayed "
               "and final state, error name and operation count compared."),
         ref="6.1, 11 C03", tech=TECH_MBT),
+    "C04": dict(
+        text=("PSLex.tla is the PLRM tokenizer as a function from bytes to tokens and DSC comments. TLC enumerates every "
+              "byte string up to length 3/4 over representative bytes, object sequences in hand-written spellings joined "
+              "by every legal separator (with the specification's own round trip as a TLC invariant), seeded random walks "
+              "of longer sequences and DSC layouts; the library must read the same tokens. Trace validation: the output "
+              "of String.PS / Name.PS is lexed by the specification."),
+        ref="6.2, 11 C04", tech=TECH_MBT + " + trace validation of the serialisers"),
+    "C05": dict(
+        text=("Eexec.tla: the cipher identities are checked by TLC on every cipher state x byte; MC_Eexec prescribes with "
+              "PSMachine the state after a section (plaintext run with systemdict pushed, closefile / end of file, clear "
+              "trailer) for plaintext programs x forms x every legal lead-byte class pattern x white-space patterns x "
+              "blanks x trailers; the harness encrypts with its own cipher (checked against Eexec.tla) and compares the "
+              "interpreter state; cipher coverage through readstring on long random sections."),
+        ref="6.3, 11 C05", tech=TECH_MBT),
+    "C07": dict(
+        text=("CIDInit.tla on PSMachine executes generated CMap files (options x block sequences of the seven kinds x "
+              "entry counts incl. 0/99/100 x mixed code lengths x every destination type x single-fault variants) and "
+              "prescribes the dictionary ReadCMap must return, or an error; the harness lays the tokens out with seeded "
+              "white space, comments and hex case and compares name, system info, type, WMode and every table."),
+        ref="6.4, 11 C07", tech=TECH_MBT),
     "C11": dict(
         text=("Budget: PSMachine counts operations exactly as the library; TLC checks BudgetTransparent on the lock-step "
               "product of a budgeted and an unbudgeted run for every program x budget and the behaviours are replayed with "
